@@ -183,6 +183,8 @@ fn claims_for(r: &mut Rng, same: bool, thread: u32, i: u64) -> Value {
         "nationalities[2][0]": "x", "$.name": "Erika Mustermann", "": {"": ""}, "twins": ["same", "same", {"a": 1}, {"a": 1}], "empty": {}, "empties": [{}, [], {}],
         // several empty containers, nulls, equal scalars as MEMBERS of one object; non-ASCII array elements
         "roles": [], "extras": {}, "more": {"a": [], "b": [], "c": {}, "d": {}, "e": null, "f": null, "g": "", "h": "", "i": 0, "j": 0, "k": false, "l": false},
+        // a member of several KB that is the same in every credential (a cached disclosure would repeat its salt)
+        "bio": "B".repeat(3000),
         "cities": ["K\u{f6}ln", "\u{6771}\u{4eac}", "\u{1f600}", ["M\u{fc}nchen"], {"\u{e9}": "\u{e9}"}]
     });
     if !same {
@@ -241,6 +243,24 @@ fn run_pattern(seed: u64, pattern: Pattern, threads: u32, per_thread: u64, same_
                 let u = claims_for(&mut r, same_claims, t, i);
                 let fmt = if i % 2 == 0 { Fmt::Compact } else { Fmt::Json };
                 let strat = strat_all(&u);
+                // every seventh call on a reused instance is preceded by a call that FAILS (claims that are not an
+                // object; a reserved member name after some disclosable ones): whatever a failed call does to the
+                // instance's generator state must not make later salts repeat earlier ones
+                if i % 7 == 3 {
+                    let bad = if i % 2 == 0 { json!([1, 2]) } else { json!({"iss": "https://issuer.example/A", "exp": 4_000_000_000u64, "a": 1, "b": {"c": 2, "_sd": ["x"]}}) };
+                    let bad_strat = strat_all(&bad);
+                    match pattern {
+                        Pattern::IssuerPerThread => {
+                            let _ = api::issue(&mut own, &bad, &bad_strat, None, true, fmt);
+                        }
+                        Pattern::IssuersHandedAround => {
+                            let idx = ((t as u64 + i) % threads as u64) as usize;
+                            let mut g = ring[idx].lock().unwrap_or_else(|e| e.into_inner());
+                            let _ = api::issue(&mut g, &bad, &bad_strat, None, true, fmt);
+                        }
+                        _ => {}
+                    }
+                }
                 let t0 = epoch.elapsed().as_nanos() as u64;
                 let out = match pattern {
                     Pattern::IssuerPerThread => api::issue(&mut own, &u, &strat, None, true, fmt),
